@@ -39,3 +39,36 @@ package storage
 //@   call[store.Finalize#0] assert args [C05]: arg1 == sc.header && ref(arg2) == ref(sc.idx) && arg3 == wrap_u64(wrap_s64(wn(sc.dataWriter) - wbase(sc.dataWriter))) && arg4 == sc.opts.StoreIdentityCIDs && arg5 == sc.opts.IndexCodec
 //@   ensures closed [C04]: err == nil && typeis(old(sc.idx), "*v2/index.InsertionIndex") && old(sc.writer) != nil ==> sc.closed
 //@   ensures released [C08]: held(sc.mu) == 0
+
+//@ func NewWritable
+//@   effect
+//@   ensures nonnil [C20]: err == nil ==> result0 != nil
+//@   ensures fail_nil [C20]: err != nil ==> result0 == nil
+
+//@ func (*StorageCar).init
+//@   ensures nonnil [C20]: err == nil ==> result0 != nil
+//@   ensures fail_nil [C20]: err != nil ==> result0 == nil
+//@   call[carv1.WriteHeader#0] assert header [C01,C05]: arg0.Version == 1 && arg0.Roots == sc.roots && ite(sc.dataWriter != nil, ref(arg1) == ref(sc.dataWriter), ref(arg1) == ref(sc.writer))
+//@   call[Writer.Write#0] assert pragma_only_v2 [C05]: !sc.opts.WriteAsCarV1
+
+//@ func newWritable
+//@   ensures header_layout [C05]: err == nil ==> result0.header.DataOffset == wrap_u64(51 + result0.opts.DataPadding) && result0.header.DataSize == 0 && result0.header.IndexOffset == wrap_u64(wrap_u64(51 + result0.opts.DataPadding) + result0.opts.IndexPadding)
+//@   ensures v1_payload_at_zero [C01,C05]: err == nil && result0.opts.WriteAsCarV1 && result0.dataWriter != nil ==> wn(result0.dataWriter) == 0 && wbase(result0.dataWriter) == 0
+//@   ensures v2_payload_at_data_offset [C05]: err == nil && !result0.opts.WriteAsCarV1 ==> result0.dataWriter != nil && wn(result0.dataWriter) == wrap_s64(result0.header.DataOffset) && wbase(result0.dataWriter) == wrap_s64(result0.header.DataOffset)
+//@   ensures writer_kind [C04]: err == nil ==> typeis(result0.writer, "*v2/storage.positionTrackingWriter") && typeis(result0.idx, "*v2/index.InsertionIndex")
+//@   ensures writer_ok [C12,C16]: err == nil && result0.dataWriter != nil ==> objinv(result0.dataWriter)
+//@   ensures writerat_gets_offset_writer [C05]: err == nil && implements(writer, "io.WriterAt") ==> result0.dataWriter != nil
+//@   ensures roots [C01]: err == nil ==> result0.roots == roots
+
+//@ func OpenReadableWritable
+//@   requires nonnil: rw != nil
+//@   let rverr := call[store.ResumableVersion#0]
+//@   call[store.Resume#0] assert args [C12]: ref(arg0) == ref(rw) && ref(arg1) == ref(sc.reader) && ref(arg2) == ref(sc.dataWriter) && ref(arg3) == ref(sc.idx) && arg4 == roots && arg5 == sc.header.DataOffset && arg6 == sc.opts.WriteAsCarV1 && arg7 == sc.opts.MaxAllowedHeaderSize && arg8 == sc.opts.ZeroLengthSectionAsEOF
+//@   call[store.Resume#0] assert version_checked [C12]: rverr == nil
+//@   call[store.ResumableVersion#0] assert args [C12]: arg1 == sc.opts.WriteAsCarV1
+
+//@ func newReadableWritable
+//@   requires nonnil: rw != nil
+//@   ensures writable [C12,C16]: err == nil ==> result0.dataWriter != nil && objinv(result0.dataWriter) && typeis(result0.idx, "*v2/index.InsertionIndex")
+//@   ensures header_layout [C05]: err == nil ==> result0.header.DataOffset == wrap_u64(51 + result0.opts.DataPadding)
+//@   ensures payload_origin [C01,C05]: err == nil ==> wbase(result0.dataWriter) == ite(result0.opts.WriteAsCarV1, 0, wrap_s64(result0.header.DataOffset))
